@@ -616,4 +616,168 @@ Lemma no_strand W kinds os :
         (exists d t, l_to l = Some d /\ (d <= now st + 500)%N /\ ptimeout st = Some t /\ (t <= 510)%N))).
 Proof. intros HL HW Hnf Htok Hwb st. eapply no_strand_inv. now apply reachable_b. Qed.
 
+(* ---------- a Turn without yields, seen from one listener T ---------- *)
+Lemma final_paused_no_pause q : ~ In IPause q -> final_paused false q = false.
+Proof.
+  induction q as [|i q IH]; intros H; cbn; [reflexivity|].
+  destruct i; try (apply IH; intros Hin; apply H; now right). exfalso. apply H. now left.
+Qed.
+
+Lemma final_paused_resume_last p q : final_paused p (q ++ [IResume]) = false.
+Proof. revert p; induction q as [|i q IH]; intros p; cbn; [reflexivity|apply IH]. Qed.
+
+Lemma Calm_turn_start T o st : Calm T o st -> Calm T o (turn_start st).
+Proof.
+  intros (l & Hl & H1 & H2). unfold Calm, turn_start, clear_edges. cbn. rewrite nth_error_map, Hl. cbn.
+  eexists. split; [reflexivity|]. cbn. auto.
+Qed.
+
+Lemma turn_quiet nl st T o :
+  FInv nl st -> stopped st = false -> ~ In IStop (wq st) -> Calm T o st ->
+  (forall d, o = Some d -> paused st = false /\ ~ In IPause (wq st) /\ (d <= now st)%N) ->
+  let st' := step L st (Turn []) in
+  FInv nl st' /\ stopped st' = false /\
+  paused st' = (if wpend st then final_paused (paused st) (wq st) else paused st) /\
+  Calm T None st' /\
+  (o = None -> paused st' = false -> available (av st') = true ->
+     forall l, nth_error (lsts st') T = Some l -> l_backlog l = []) /\
+  (forall x, In x (wq st') -> In x (wq st)) /\ now st' = now st.
+Proof.
+  intros HF Hst Hns HC Ho st'.
+  assert (HF' : FInv nl st') by (apply step_b; auto).
+  split; [exact HF'|]. destruct HF as (HI & HR & HWB & HB & HQ).
+  assert (Hlive : live st = true) by (unfold live; rewrite Hst; destruct HI as (-> & _); reflexivity).
+  destruct (turn_core nl false st [] HI HR HWB HB HQ eq_refl eq_refl ltac:(auto) Hst)
+    as (st1 & ys1 & st2 & ys2 & Hs1 & Hs2 & HI2 & HR2 & HWB2 & HB2 & HQ2 & Hey & Hst1 & Hp1 & F1).
+  pose proof (Hey eq_refl) as Hey'. destruct Hey' as [E1 E2]. subst ys1 ys2.
+  destruct (accept_toks_q L _ _ _ _ Hs1) as (_ & (M1 & M2 & M3 & M4 & M5 & M6) & C1).
+  pose proof (C1 T o (Calm_turn_start T o st HC)) as HC1.
+  (* the state before process_timeout *)
+  assert (S2 : stopped st2 = false /\ now st2 = now st /\ Calm T o st2 /\
+               paused st2 = (if wpend st then final_paused (paused st) (wq st) else paused st) /\
+               (forall x, In x (wq st2) -> In x (wq st))).
+  { destruct (wpend st) eqn:Hwk.
+    - destruct (handle_waker_q L _ _ _ _ Hs2) as (_ & N2 & _ & C2 & E2); [rewrite M1; exact Hns|].
+      destruct (E2 (proj1 HI2)) as (P2 & St2 & Q2 & _).
+      split; [congruence|]. split; [rewrite N2, M5; reflexivity|]. split.
+      + apply C2; [exact HC1|]. intros Hne. destruct o as [d|]; [|congruence].
+        destruct (Ho d eq_refl) as (A1 & A2 & _). split; [congruence|]. rewrite M1. exact A2.
+      + split; [rewrite P2, M3, M1; reflexivity|]. intros x Hin. rewrite Q2 in Hin. destruct Hin.
+    - injection Hs2 as <-. split; [exact Hst1|]. split; [rewrite M5; reflexivity|]. split; [exact HC1|].
+      split; [exact Hp1|]. intros x Hin. rewrite M1 in Hin. exact Hin. }
+  destruct S2 as (St2 & N2 & HC2 & P2 & W2).
+  assert (E' : st' = process_timeout st2).
+  { unfold st'. cbn [step]. rewrite Hlive. fold (turn_start st). rewrite Hs1.
+    assert (Hl2 : live st2 = true) by (unfold live; rewrite St2; destruct HI2 as (-> & _); reflexivity).
+    destruct (wpend st); [rewrite Hs2|injection Hs2 as <-]; rewrite Hl2; reflexivity. }
+  destruct (process_timeout_fields st2) as (Fa & Fs & Fp & Fq & _ & Fn & _).
+  rewrite E'. split; [congruence|]. split; [congruence|]. split; [|split; [|split; [intros x; rewrite Fq; apply W2|congruence]]].
+  - destruct o as [d|]; [|now apply process_timeout_calm_none].
+    destruct (Ho d eq_refl) as (A1 & A2 & A3).
+    assert (Hp2 : paused st2 = false).
+    { rewrite P2. destruct (wpend st); [|exact A1]. rewrite A1. now apply final_paused_no_pause. }
+    apply (process_timeout_calm_some T d); [exact HC2| |exact Hp2|rewrite N2; exact A3].
+    destruct HC2 as (l & Hl & _ & Ht). destruct (RInv_armed st2 l d HR2 (nth_error_In _ _ Hl) Ht) as (t & _ & Et & _). congruence.
+  - intros -> Hp' Ha' l Hl. rewrite Fp in Hp'. rewrite Fa in Ha'.
+    destruct HC2 as (l2 & Hl2 & Hi2 & Ht2).
+    assert (El : l = l2).
+    { rewrite process_timeout_eq in Hl. destruct (ptimeout st2); [|congruence]. cbn in Hl.
+      rewrite nth_error_map, Hl2 in Hl. cbn in Hl. unfold pto_l in Hl. rewrite Ht2 in Hl. congruence. }
+    subst l. destruct (HB2 St2 Hp' Ha' T l2 (fun x => x) Hl2) as [H|[H|[(H & _)|H]]]; [exact H|contradiction|discriminate|contradiction].
+Qed.
+
+(* ---------- C05_recovers ---------- *)
+(* what "listener T accepts again" means in a state: registered, no deadline, reachable, and nothing left in
+   its backlog whenever a worker is flagged available *)
+Definition Recovered (st : state) (T : nat) : Prop :=
+  exists l, nth_error (lsts st) T = Some l /\ l_reg l = true /\ l_to l = None /\ l_inject l = [] /\
+            l_linked l = true /\ (available (av st) = true -> l_backlog l = []).
+
+Lemma Recovered_of nl st T :
+  FInv nl st -> stopped st = false -> paused st = false -> Calm T None st ->
+  (available (av st) = true -> forall l, nth_error (lsts st) T = Some l -> l_backlog l = []) -> Recovered st T.
+Proof.
+  intros (_ & HR & _) Hs Hp (l & Hl & Hi & Ht) Hb. exists l. split; [exact Hl|].
+  destruct HR as (_ & _ & H3). destruct (Forall_nth_error _ _ _ _ H3 Hl) as (A & _ & _ & D).
+  split; [now apply D|]. split; [exact Ht|]. split; [exact Hi|]. split; [exact A|]. intros Ha. now apply Hb.
+Qed.
+
+(* (a) Resume: one command, one turn *)
+Lemma recovers_resume nl st T l :
+  FInv nl st -> stopped st = false -> ~ In IStop (wq st) ->
+  nth_error (lsts st) T = Some l -> l_inject l = [] -> l_to l = None ->
+  let st' := run L st [E (Command CResume); Turn []] in
+  FInv nl st' /\ stopped st' = false /\ paused st' = false /\ Recovered st' T.
+Proof.
+  intros HF Hst Hns Hl Hi Ht st'. set (sR := step L st (E (Command CResume))).
+  assert (HFR : FInv nl sR) by (apply step_b; auto).
+  assert (HC : Calm T None sR) by (exists l; auto).
+  destruct (turn_quiet nl sR T None HFR Hst) as (HF' & Hs' & Hp' & HC' & Hb' & _); [|exact HC|discriminate|].
+  { unfold sR. cbn. intros Hin. apply in_app_or in Hin as [Hin|[Hin|[]]]; [auto|discriminate]. }
+  change (step L sR (Turn [])) with st' in *.
+  assert (Hp'' : paused st' = false).
+  { rewrite Hp'. unfold sR. cbn [step env_step wake wpend set_wq wq paused]. apply final_paused_resume_last. }
+  split; [exact HF'|]. split; [exact Hs'|]. split; [exact Hp''|].
+  eapply Recovered_of; eauto.
+Qed.
+
+(* (b) back-off: 510 ms and two turns later *)
+Lemma recovers_backoff nl st T l :
+  FInv nl st -> stopped st = false -> paused st = false -> ~ In IStop (wq st) -> ~ In IPause (wq st) ->
+  nth_error (lsts st) T = Some l -> l_inject l = [] ->
+  let st' := run L st [Advance 510; Turn []; Turn []] in
+  FInv nl st' /\ stopped st' = false /\ paused st' = false /\ Recovered st' T.
+Proof.
+  intros HF Hst Hpa Hns Hnp Hl Hi st'. set (sA := step L st (Advance 510)).
+  assert (HFA : FInv nl sA) by (apply step_b; auto).
+  assert (HC : Calm T (l_to l) sA) by (exists l; auto).
+  destruct (turn_quiet nl sA T (l_to l) HFA Hst Hns HC) as (HF1 & Hs1 & Hp1 & HC1 & _ & Hw1 & _).
+  { intros d Hd. split; [exact Hpa|]. split; [exact Hnp|]. destruct HF as (_ & HR & _).
+    destruct (RInv_armed st l d HR (nth_error_In _ _ Hl) Hd) as (t & Hle & _). unfold sA. cbn. lia. }
+  set (s1 := step L sA (Turn [])) in *.
+  assert (Hp1' : paused s1 = false).
+  { rewrite Hp1. change (paused sA) with (paused st). change (wq sA) with (wq st). rewrite Hpa.
+    destruct (wpend sA); [now apply final_paused_no_pause|reflexivity]. }
+  assert (Hns1 : ~ In IStop (wq s1)) by (intros Hin; apply Hns; exact (Hw1 _ Hin)).
+  assert (Hnp1 : ~ In IPause (wq s1)) by (intros Hin; apply Hnp; exact (Hw1 _ Hin)).
+  destruct (turn_quiet nl s1 T None HF1 Hs1 Hns1 HC1) as (HF2 & Hs2 & Hp2 & HC2 & Hb2 & _); [discriminate|].
+  change (step L s1 (Turn [])) with st' in *.
+  assert (Hp2' : paused st' = false).
+  { rewrite Hp2, Hp1'. destruct (wpend s1); [now apply final_paused_no_pause|reflexivity]. }
+  split; [exact HF2|]. split; [exact Hs2|]. split; [exact Hp2'|].
+  eapply Recovered_of; eauto.
+Qed.
+
+(* the two statements for reachable states *)
+Lemma recovers_resume_run W kinds os T l :
+  (1 <= L)%Z -> 1 <= W <= 512 ->
+  forallb nf_op os = true -> forallb (tok_ok (length kinds)) os = true -> forallb nwb_op os = true ->
+  let st := run L (init W kinds) os in
+  stopped st = false -> ~ In IStop (wq st) ->
+  nth_error (lsts st) T = Some l -> l_inject l = [] -> (l_to l = None \/ paused st = true) ->
+  let st' := run L st [E (Command CResume); Turn []] in
+  stopped st' = false /\ paused st' = false /\ Recovered st' T.
+Proof.
+  intros HL HW Hnf Htok Hwb st Hst Hns Hl Hi Ht st'.
+  pose proof (reachable_b W kinds os HL HW Hnf Htok Hwb) as HF. fold st in HF.
+  assert (Ht' : l_to l = None).
+  { destruct Ht as [Ht|Hp]; [exact Ht|]. destruct HF as (_ & (_ & _ & H3) & _).
+    destruct (Forall_nth_error _ _ _ _ H3 Hl) as (_ & _ & C & _). now apply C. }
+  exact (proj2 (recovers_resume (length kinds) st T l HF Hst Hns Hl Hi Ht')).
+Qed.
+
+Lemma recovers_backoff_run W kinds os T l :
+  (1 <= L)%Z -> 1 <= W <= 512 ->
+  forallb nf_op os = true -> forallb (tok_ok (length kinds)) os = true -> forallb nwb_op os = true ->
+  let st := run L (init W kinds) os in
+  stopped st = false -> paused st = false -> ~ In IStop (wq st) -> ~ In IPause (wq st) ->
+  nth_error (lsts st) T = Some l -> l_inject l = [] ->
+  let st' := run L st [Advance 510; Turn []; Turn []] in
+  stopped st' = false /\ paused st' = false /\ Recovered st' T.
+Proof.
+  intros HL HW Hnf Htok Hwb st Hst Hpa Hns Hnp Hl Hi st'.
+  pose proof (reachable_b W kinds os HL HW Hnf Htok Hwb) as HF. fold st in HF.
+  exact (proj2 (recovers_backoff (length kinds) st T l HF Hst Hpa Hns Hnp Hl Hi)).
+Qed.
+
 End B.
